@@ -15,7 +15,10 @@ RULE = (
     "fault space is enumerated completely: (cut) EVERY byte offset 0..len of the raw stream read through a buffered "
     "BytesIO, a raw non-peekable reader returning short reads, and RecordReader(fileobj=); (gzcut) EVERY byte offset of "
     "the sync-flushed gzip form read through RecordReader(fileobj=); (wfault) EVERY write-call index of the writer's file "
-    "object x {raise, short write + raise, silent short write + crash}, then reading what reached the file object. "
+    "object x {raise, short write + raise, silent short write + crash}, then reading what reached the file object; (wcont) "
+    "EVERY frame whose write fails cleanly (the length-prefix call raises, nothing reaches the file) while the application "
+    "carries on writing: the reader must yield an unmodified prefix of the records whose write() returned, at least up to the "
+    "first failure. "
     "Oracle: the observations of the yielded records equal those of the written records whose frames are completely "
     "present (frame ends computed by the independent reference codec; for gzip from the independently decompressed prefix); "
     "iteration then ends or raises any exception; at an exact frame boundary of the raw stream it must end without raising. "
@@ -23,7 +26,7 @@ RULE = (
     "holds at least one complete record frame or the cut falls inside a frame."
 )
 ASSUMPTIONS = [
-    "crash semantics: after an injected write failure the writer is not used again (continuing to write after a failed body write mis-frames the stream, which no reader can repair)",
+    "crash semantics for short writes and failed body writes: the writer is not used again (continuing after a partially written frame mis-frames the stream, which no reader can repair); continuing is explored only for frames whose write fails before any byte reaches the file",
     "the gzip form is built by the harness from the writer's frames with a sync flush after every frame (what PathTemplateWriter does via fp.flush()); whole-file gzip written by the library is C11/C17's subject",
     "empty and shorter-than-header prefixes may raise; they must yield no records",
 ]
@@ -48,7 +51,8 @@ def generate(ctx):
     idx = 0
     for i in range(nstreams):
         s = subseed("c04", ctx.seed, "stream", i)
-        for kind, sub in (("cut", "buffered"), ("cut", "raw"), ("cut", "reader"), ("gzcut", "reader"), ("wfault", "raise"), ("wfault", "short"), ("wfault", "silent-short")):
+        for kind, sub in (("cut", "buffered"), ("cut", "raw"), ("cut", "reader"), ("gzcut", "reader"), ("wfault", "raise"), ("wfault", "short"), ("wfault", "silent-short"),
+                          ("wcont", "raise")):
             if ctx.mine(idx):
                 yield {"k": kind, "sub": sub, "s": s, "i": i}
             idx += 1
@@ -60,7 +64,10 @@ def build(case, ctx):
     from flow.record import RecordStreamWriter
 
     n = 3 + case["s"] % 8
-    records = workload.build_sequence(case["s"], thorough=False, n_records=n, n_descs=1 + case["s"] % 3, small=True)
+    if case.get("i", 0) % 3 == 2:
+        records = same_name_family(case["s"], n + 2)
+    else:
+        records = workload.build_sequence(case["s"], thorough=False, n_records=n, n_descs=1 + case["s"] % 3, small=True)
     written = [observe.normalise(observe.obs(r)) for r in records]
     tee = faultio.TeeFile()
     w = RecordStreamWriter(tee)
@@ -69,6 +76,28 @@ def build(case, ctx):
     w.flush()
     w.fp = None
     return records, written, tee.getvalue(), tee
+
+
+def same_name_family(seed, n):
+    """Records of several types that share one NAME but differ in their fields (a lost descriptor frame must not make a
+    reader fall back to another type of the same name)."""
+    import random
+
+    from flow.record import RecordDescriptor
+
+    rng = random.Random(seed)
+    fam = [RecordDescriptor("fam/x", [("string", "a")]), RecordDescriptor("fam/x", [("varint", "a"), ("string", "b")]),
+           RecordDescriptor("fam/x", [("string", "b"), ("string", "a"), ("uint16", "c")]), RecordDescriptor("other/y", [("string", "a")])]
+    out = []
+    order = list(range(len(fam)))
+    rng.shuffle(order)
+    for j in range(n):
+        d = fam[order[j % len(order)] if j < len(order) else rng.randrange(len(fam))]
+        kw = {}
+        for t, name in d.get_field_tuples():
+            kw[name] = rng.randrange(1000) if t in ("varint", "uint16") else "v%d" % rng.randrange(1000)
+        out.append(d.recordType(**kw))
+    return out
 
 
 def read_all(make_reader):
@@ -196,6 +225,10 @@ def execute(ctx, case):
         check_prefix(ctx, case, "complete gzip form", yielded, exc, _got_expected(written, yielded, len(written)), True, {"gzip_len": len(gz)})
         return
 
+    if k == "wcont":
+        run_continue_after_fault(ctx, case, records, written, data, tee, frames)
+        return
+
     # k == "wfault": a failing / short write call at every index
     ncalls = len(tee.calls)
     from flow.record import RecordStreamWriter
@@ -235,6 +268,63 @@ def execute(ctx, case):
             check_prefix(ctx, case, "write fault %s at call %d, read via %s" % (sub, idx, rsub), yielded, exc, _got_expected(written, yielded, cnt), boundary,
                          {"call": idx, "mode": sub, "bytes_on_disk": len(ondisk), "clean_len": len(data)})
         ctx.nontrivial("wfault", sub, case["s"], idx)
+
+
+def run_continue_after_fault(ctx, case, records, written, data, tee, frames):
+    """The write of a whole frame fails cleanly (the call that would write its length prefix raises, nothing reaches the
+    file) and the application carries on with the next records.  The stream on disk stays well framed.  Records whose
+    write() returned normally are completely written; the reader must yield a prefix of them, unmodified and in order,
+    at least up to the first failed write, and then end or raise."""
+    from flow.record import RecordStreamWriter
+
+    starts = {s_ for s_, _, _ in frames}
+    length_calls = [i for i, (off, ln) in enumerate(tee.calls) if off in starts and ln == 4]
+    if len(length_calls) != len(frames):
+        ctx.event("wcont_not_applicable_(writer_does_not_emit_the_length_prefix_as_its_own_write)")
+        return
+    for idx in length_calls[1:]:  # the header frame is written by the first write; failing it is the crash case
+        ff = faultio.FaultFile(idx, "raise")
+        w = RecordStreamWriter(ff)
+        ok = []
+        for r in records:
+            try:
+                w.write(r)
+                ok.append(True)
+            except Exception:  # noqa: BLE001 - the application notes the failure and carries on
+                ok.append(False)
+        try:
+            w.flush()
+        except Exception:  # noqa: BLE001
+            pass
+        w.fp = None
+        ctx.ev()
+        ctx.event("wcont")
+        if not ff.fired:
+            continue
+        ondisk = ff.getvalue()
+        fr, e2 = refcodec.split_frames(ondisk)
+        if e2 != len(ondisk):
+            ctx.event("wcont_stream_not_well_framed_(skipped)")
+            continue
+        complete = [w_ for w_, good in zip(written, ok) if good]
+        first_fail = ok.index(False) if False in ok else len(ok)
+        must_have = sum(1 for good in ok[:first_fail] if good)
+        for rsub in ("buffered", "reader"):
+            yielded, exc = read_all(make_reader_factory(rsub, ondisk))
+            try:
+                got = [observe.normalise(observe.obs(r)) for r in yielded]
+            except Exception as e:  # noqa: BLE001
+                ctx.violation(None, "continue after a failed frame write: a yielded record cannot be observed", detail={"call": idx, "error": repr(e)[:200]})
+                continue
+            exp = [_EXPECT.get(id(w_), w_) for w_ in complete]
+            detail = {"call": idx, "records_attempted": len(ok), "write_failed_for": [i for i, g in enumerate(ok) if not g], "yielded": len(got),
+                      "completely_written": len(exp), "reader": rsub, "exception": repr(exc)[:200] if exc else None}
+            if got != exp[: len(got)]:
+                ctx.violation(None, "continue after a failed frame write: the reader yields something that is not an unmodified prefix of the completely written records",
+                              detail=dict(detail, diff=observe.first_diff(exp[: len(got)], got)))
+            elif len(got) < must_have:
+                ctx.violation(None, "continue after a failed frame write: complete records written before the failure are skipped", detail=dict(detail, must_have=must_have))
+        ctx.nontrivial("wcont", case["s"], idx)
 
 
 def _strip_known(written, decoded):
